@@ -33,6 +33,33 @@ def flatten(goal, ante=None):
 
 
 _INDEXTERM = set()
+_BASEPTR = set()
+_GHOSTROOT = {}
+
+
+def is_ghost_array(a):
+    """Is array term `a` (modulo Store / If / nested Select) rooted at a ghost-state constant (names g...)?"""
+    i = a.get_id()
+    if i in _GHOSTROOT:
+        return _GHOSTROOT[i]
+    r = False
+    x = a
+    for _ in range(60):
+        if z3.is_const(x) and x.decl().kind() == z3.Z3_OP_UNINTERPRETED:
+            n = x.decl().name()
+            r = n.startswith('g') and not n.startswith('glob')
+            break
+        if not z3.is_app(x) or x.num_args() == 0:
+            break
+        k = x.decl().kind()
+        if k == z3.Z3_OP_STORE or k == z3.Z3_OP_SELECT:
+            x = x.arg(0)
+        elif k == z3.Z3_OP_ITE:
+            x = x.arg(1)
+        else:
+            break
+    _GHOSTROOT[i] = r
+    return r
 
 
 def ground_terms(terms):
@@ -59,6 +86,10 @@ def ground_terms(terms):
                 _INDEXTERM.add(ch[0].get_id())
             elif dk == z3.Z3_OP_SELECT and len(ch) == 2:
                 _INDEXTERM.add(ch[1].get_id())
+                if is_ghost_array(ch[0]):
+                    _BASEPTR.add(ch[1].get_id())
+            elif nm in ('aid', 'apath') and ch:
+                _BASEPTR.add(ch[0].get_id())
         s = t.sort()
         if z3.is_bool(t) or z3.is_array(t):
             continue
@@ -130,6 +161,13 @@ def has_skolem(t):
 def candidate_filter(sort_name, terms, maxrank=9):
     def rank(t):
         n = tsize(t)
+        if sort_name == 'Addr':
+            isc = z3.is_const(t) and t.decl().kind() == z3.Z3_OP_UNINTERPRETED
+            if isc and t.decl().name().startswith('sk_'):
+                return (0, n, '')
+            if t.get_id() in _BASEPTR or isc:
+                return (0 if has_skolem(t) else 1, n, '')
+            return (5, n, '')
         if z3.is_const(t) and t.decl().kind() == z3.Z3_OP_UNINTERPRETED:
             if t.decl().name().startswith('sk_'):
                 return (0, n, t.decl().name())
@@ -140,6 +178,8 @@ def candidate_filter(sort_name, terms, maxrank=9):
             return (0, n, '')
         if n <= 8 and t.get_id() in _INDEXTERM:
             return (1, n, '')
+        if z3.is_app(t) and t.decl().kind() == z3.Z3_OP_SELECT and is_ghost_array(t.arg(0)) and n <= 40:
+            return (1, n, '')
         return (2 if n < 12 else 3, n, '')
     uniq = []
     seen = set()
@@ -149,9 +189,9 @@ def candidate_filter(sort_name, terms, maxrank=9):
             continue
         seen.add(k)
         uniq.append(t)
-    uniq = [t for t in uniq if rank(t)[0] <= maxrank]
+    uniq = [t for t in uniq if rank(t)[0] <= min(maxrank, 4)]
     uniq.sort(key=lambda t: rank(t) + (t.get_id(),))
-    return uniq[:14]
+    return uniq[:16]
 
 
 def instantiate(assumptions, goal_terms, rounds=2, maxrank=9):
@@ -160,6 +200,8 @@ def instantiate(assumptions, goal_terms, rounds=2, maxrank=9):
     _SIZE.clear()
     _HASSK.clear()
     _INDEXTERM.clear()
+    _BASEPTR.clear()
+    _GHOSTROOT.clear()
     hyps = quantified_hyps(assumptions)
     base_terms = list(goal_terms) + [a for a in assumptions if not z3.is_quantifier(a)]
     inst = []
@@ -208,6 +250,10 @@ def instantiate(assumptions, goal_terms, rounds=2, maxrank=9):
                 for t in ts:
                     if not z3.is_const(t) and tsize(t) <= 6 and has_skolem(t):
                         extra_terms.append(t)
+                    elif sname == 'Addr' and t.get_id() in _BASEPTR and tsize(t) <= 40:
+                        extra_terms.append(t)
+                    elif z3.is_app(t) and t.decl().kind() == z3.Z3_OP_SELECT and is_ghost_array(t.arg(0)) and tsize(t) <= 40:
+                        extra_terms.append(t)      # witness terms such as sloti[t][k]
     return inst
 
 
